@@ -1478,6 +1478,23 @@ def _p_scan(I, args, kw, node):
     return I.scan(f, init, xs, reverse=rev, node=node)
 
 
+def _p_laxmap(I, args, kw, node):
+    # jax.lax.map(f, xs) is a scan without a carry: ys[i] = f(xs[i])
+    f, xs = args[0], args[1]
+    i = fresh("?")
+    tags: list[str] = []
+    x = I.map_arg(xs, ZERO, i, tags)
+    known = {t for t in tags if t != "ax"}
+    if len(known) > 1:
+        raise Unsupported(f"lax.map over mismatched axes {sorted(known)}")
+    tag = next(iter(known)) if known else "ax"
+    i2 = ("ix", tag, i[2])
+    x = subst(x, {i: i2})
+    y = I.call_value(f, [x], {})
+    I.scans.append({"fn": f, "tag": tag, "ix": i2, "init": NONE, "reverse": False, "x": x, "line": getattr(node, "lineno", 0), "kind": "map", "y": y})
+    return I.wrap_lam(y, i2, tag)
+
+
 def _p_cond(I, args, kw, node):
     pred, tf, ff = args[0], args[1], args[2]
     ops = list(args[3:])
@@ -1611,6 +1628,7 @@ for _n in ("np.einsum", "lax.fori_loop", "lax.while_loop", "jax.tree_util.tree_m
 PRIM_SIGS = {
     "lax.scan": ["f", "init", "xs"],
     "lax.cond": ["pred", "true_fun", "false_fun"],
+    "lax.map": ["f", "xs"],
     "jax.vmap": ["fun"],
     "jax.pmap": ["fun"],
     "jax.jit": ["fun"],
@@ -1640,6 +1658,7 @@ PRIMS = {
     "functools.partial": _p_partial,
     "lax.scan": _p_scan,
     "lax.cond": _p_cond,
+    "lax.map": _p_laxmap,
     "np.take": _p_take,
     "np.where": _p_where,
     "np.abs": _p_pointwise("abs"),
